@@ -843,7 +843,33 @@ func c01Facets(c *Ctx) {
 				return false
 			}
 			call, ok := as.Rhs[0].(*ast.CallExpr)
-			if !ok || len(call.Args) != 2 {
+			if !ok {
+				// name, ok := strings.CutPrefix(X, "must_") ... X.Name = name
+				if id, isId := ast.Unparen(as.Rhs[0]).(*ast.Ident); isId {
+					obj := info.ObjectOf(id)
+					found := false
+					ast.Inspect(f.Body, func(k ast.Node) bool {
+						a3, ok := k.(*ast.AssignStmt)
+						if !ok || len(a3.Lhs) != 2 || len(a3.Rhs) != 1 {
+							return true
+						}
+						if l0, ok := a3.Lhs[0].(*ast.Ident); !ok || info.ObjectOf(l0) != obj {
+							return true
+						}
+						if c3, ok := ast.Unparen(a3.Rhs[0]).(*ast.CallExpr); ok && len(c3.Args) == 2 {
+							cal := core.Callee(info, c3)
+							v, isC := constStr(info, c3.Args[1])
+							if cal != nil && cal.Name() == "CutPrefix" && isC && v == "must_" {
+								found = true
+							}
+						}
+						return true
+					})
+					return found
+				}
+				return false
+			}
+			if len(call.Args) != 2 {
 				return false
 			}
 			cal := core.Callee(info, call)
